@@ -10,13 +10,13 @@ CHECKS = {
   "technique": "property-based differential testing between the four solvers (Hypothesis), sanitized",
  },
  "C03": {
-  "text": "Generated-input search: all q_xx(i,j), q_bb(i,j) index pairs of every algorithm are checked against algebraic identities (symmetry, PSD, NQN=N, QNQ=Q, projector, trace=rank) and a numpy reference for the chosen regularisation.",
+  "text": "Generated-input search: all q_xx(i,j), q_bb(i,j) and (cholesky, gso, svd) q_bx(i,j) index pairs of every algorithm are checked against algebraic identities (symmetry, PSD, NQN=N, QNQ=Q, projector, trace=rank) and a numpy reference for the chosen regularisation.",
   "note": "Trusted: numpy reference; tolerance 1e-8*cond^2; n<=9, m<=19.",
   "technique": "property-based testing (Hypothesis) with algebraic-invariant and reference oracles",
  },
  "C04": {
   "text": "Model-based history generation: sequences of up to 30 API calls against one solver object; every answer is compared with a fresh object asked only that question and with the numpy reference. The sequence shrinks as one value; sanitizer aborts are violations.",
-  "note": "Trusted: driver gdrv_adj (pure function of its command stream), numpy to admit only resolving min_x subsets.",
+  "note": "Trusted: driver gdrv_adj (pure function of its command stream), numpy to admit resolving min_x subsets; subsets with fewer indexes than the defect are admitted as certainly insufficient (the answer is an exception, the same for a fresh object).",
   "technique": "stateful / model-based property testing (Hypothesis-generated call histories vs fresh-object oracle)",
  },
  "C05": {
@@ -35,7 +35,7 @@ CHECKS = {
   "technique": "property-based testing (Hypothesis) with recomputation oracle and a metamorphic relation on the real binary",
  },
  "C07": {
-  "text": "Metamorphic generated-input search: a noisy determined network and a transformed description of the same physical survey (translation, circle rotation, permutation, renaming, gon/degree, swapped distance ends, another of the 16 axes/angle frames) are both adjusted by the real binary; results mapped back to the physical frame must agree.",
+  "text": "Metamorphic generated-input search: a noisy determined network and a transformed description of the same physical survey (translation, circle rotation incl. zero next to a target on a coordinate axis, permutation, renaming incl. numeric-looking and digit-leading ids, gon/degree, swapped distance ends, another of the 16 axes/angle frames with full covariance matrices transformed, implicit standard deviations spelled out) are both adjusted by the real binary; results mapped back to the physical frame must agree.",
   "note": "Trusted: the truth model defines equivalence (same physical errors re-expressed; covariance signs follow the angle sense). Standard deviations of adjusted observations inside banded clusters are excluded (known finding shared with C09). 3-8 points.",
   "technique": "metamorphic property-based testing (Hypothesis) on the real binary",
  },
@@ -57,7 +57,7 @@ CHECKS = {
   "level": "fault_enumeration",
  },
  "C10": {
-  "text": "Generated-input search with four relations: diagonal cov-mat vs per-observation stdev attributes; (A,b,C) vs numpy-whitened formulation through Adj for all algorithms and bands; banded clusters with inserted observations to unusable points vs the reduced input with the explicit sub-matrix; malformed matrices (indefinite, zero/negative variance, wrong dim, wrong element count, band>=dim) must be refused by every algorithm with the same located diagnostic.",
+  "text": "Generated-input search with four relations: diagonal cov-mat vs per-observation stdev attributes; (A,b,C) vs numpy-whitened formulation through Adj for all algorithms and bands; banded clusters with inserted observations to unusable points vs the reduced input with the explicit sub-matrix; malformed matrices (indefinite, zero/negative variance, wrong dim, wrong element count, band>=dim) must be refused by every algorithm with the same located diagnostic; the exclusion relation also compares the statistics per observation.",
   "note": "Trusted: numpy Cholesky for whitening, my GKF writer; ghost observations are constructed so that the target point is unusable (undeclared, or declared without determinable coordinates).",
   "technique": "metamorphic / differential property-based testing (Hypothesis) on the real binary and the Adj API",
  },
@@ -79,7 +79,7 @@ CHECKS = {
   "technique": "property-based testing (Hypothesis) against dense reference implementations",
  },
  "C13": {
-  "text": "Generated-input search: noisy determined networks with every cluster type decorated with from_dh/to_dh/bs_dh/fs_dh, extern, dist, angular unit, cov-band, degree input, banded covariances, perturbed or omitted approximate coordinates; the real binary writes --export (+ --xml); my own GKF reader compares export and original semantically (points, statuses, values, stdev / full covariance matrices in the unit of the values, heights, parameters), the exported coordinates with the run's final linearisation point, the export written without --xml with the one written with it; the export is adjusted again (same coordinates, adjusted observations, v'Pv, no linearisation iteration) and exported again (round 2 = round 3).",
+  "text": "Generated-input search: noisy determined networks with every cluster type decorated with from_dh/to_dh/bs_dh/fs_dh, extern, dist, angular unit, cov-band, degree input, banded covariances, latitude / ellipsoid parameters, epoch, implicit standard deviations, negative heights, perturbed or omitted approximate coordinates; the real binary writes --export (+ --xml); my own GKF reader compares export and original semantically (points, statuses, values, stdev / full covariance matrices in the unit of the values, heights, parameters), the exported coordinates with the run's final linearisation point, the export written without --xml with the one written with it; the export is adjusted again (same coordinates, adjusted observations, v'Pv, no linearisation iteration) and exported again (round 2 = round 3).",
   "note": "Trusted: my GKF reader / XML result reader. Re-adjustment tolerances are tied to gama's own stopping criteria (0.0005 mm per observation, 0.1 cc on dh reductions times sight length). Cases in which gama removes a point (weak configuration) are left to C14/C20.",
   "technique": "property-based round-trip / fixed-point testing (Hypothesis) of gama-local --export through the real binary",
  },
@@ -99,7 +99,7 @@ CHECKS = {
   "technique": "property-based differential testing (Hypothesis) of the four solvers against a numpy rank oracle and of the real binary on networks with planted rank deficiencies",
  },
  "C12": {
-  "text": "Generated-input search: noisy networks with identifiers / descriptions / extern values containing XML specials, non-ASCII and long strings, generated --cov-band, angular unit, language and encoding; one run of the real binary writes XML, HTML, text and Octave; checks: well-formed XML with exact identifiers, gama's own XML reader equal to my reader field by field, HTML reader to HTML precision, text and Octave carrying the same coordinates and v'Pv, compare-xyz and gama-local-deformation on identical and translated epochs.",
+  "text": "Generated-input search: noisy networks with identifiers / descriptions / extern values containing XML specials, non-ASCII and long strings, generated --cov-band, angular unit, language and encoding; one run of the real binary writes XML, HTML, text and Octave; checks: well-formed XML with exact identifiers, gama's own XML reader equal to my reader field by field, HTML reader to HTML precision, text (table of adjusted coordinates block by block, constrained marks) and Octave (coordinates, v'Pv, status counts, Indexes / Constrained matrices) carrying the same adjustment, compare-xyz and gama-local-deformation on identical and translated epochs.",
   "note": "Trusted: Python expat + my reader as reference, small purpose-built readers of the text/Octave layouts. Two known findings about the HTML reader (entity-split identifiers, non-English labels) are excluded by tag.",
   "technique": "property-based round-trip / differential testing (Hypothesis) across gama's writers, readers and companion tools",
  },
